@@ -465,6 +465,11 @@ where
         if n == 0 {
             return self.assign_fixed_biguint(layouter, BigUint::one());
         }
+        // The square-and-multiply below only reduces through `mod_mul`, which is never
+        // called when n = 1.
+        if n == 1 {
+            return Ok(self.div_rem(layouter, x, m)?.1);
+        }
 
         let mut n = n;
         let mut tmp = x.clone();
